@@ -281,11 +281,24 @@ def run_case(case):
 
         @app.route('/b', method='POST')
         def h():
-            seen['body'] = app.request.body.read()
+            # the body is accessed twice: a refusal must not turn into a (partial / shifted) body on a later access
+            outcomes = []
+            for _k in range(2):
+                try:
+                    outcomes.append(('ok', app.request.body.read()))
+                except ombott.HTTPError as e:
+                    outcomes.append(('err', e.status_code))
+            seen['outcomes'] = outcomes
+            if outcomes[0][0] == 'err':
+                raise ombott.HTTPError(outcomes[0][1], 'refused')
+            seen['body'] = outcomes[0][1]
             return 'ok'
         env = make_environ('/b', 'POST', stream=stream, chunked=True, content_length=None)
         res = serve(app, env)
         status = res.status
+        oc = seen.get('outcomes') or []
+        if len(oc) == 2 and oc[0] != oc[1]:
+            return fail('X6.second_access_differs', outcomes=oc, wire=wire, status=status, short_read=_short_read(stream), **info)
         if res.exc is not None:
             return fail('X1.escaped', exc=repr(res.exc), wire=wire, demand=demand, short_read=_short_read(stream), **info)
         code = res.code
